@@ -32,7 +32,7 @@ ASSUME = [
     'constant 0.3989422804 (relative deviation 3.6e-12, below the tolerance of the stream)',
     'IEEE rounding inside the engine is covered by the relative tolerance of the membership test (2^-30 for values and first '
     'derivatives, 2^-24 for second derivatives, relative to max(|y|, 1)), not modelled',
-    'differentiable formula = smooth fragment of Model/Deriv.v at an interior point (predicate dom): comparisons, And/Or, min/max, '
+    'differentiable formula = smooth fragment of Model/Deriv.v at an interior point (predicate dom, proved open: T02a_dom_open): comparisons, And/Or, min/max, '
     'logzero, Elem keys, ConditionalSum conditions, chosen alternative and availabilities only over parameter-free sub-trees; '
     'MonteCarlo / PanelLikelihoodTrajectory / Integrate / Derive are outside the fragment (C09 / C10)',
     'numpy: division of an array by a float divides every entry (scaling), ndarray[0] selects the first entry',
@@ -408,7 +408,36 @@ def check_packaging(ctx, st, c, r, names):
                         if bad is not None:
                             viol(f'C02/biogeme/{sc}/{fld}', f'calculate_likelihood_and_derivatives(scaled={sc == "scaled"}): output "{fld}" is not the '
                                  f'aggregated one{" divided by the sample size" if div != 1 else ""}', agg[fld], o[fld], extra={'at': bad, 'N': N})
+    # ---- Expression.create_function at a second point: position i of the array is the i-th sorted name
+    cf = r.get('create_function')
+    if cf is not None:
+        if 'exc' in cf:
+            # the second point may leave the domain (engine error): only a failure INSIDE the domain would be a violation; not claimed here
+            st.extra['create_function_errors'] = st.extra.get('create_function_errors', 0) + 1
+        elif all_finite(cf['ref']) and all_finite(cf['fn']):
+            sc = max(1.0, scale_of([list(cf['ref']['g'].values())] + [list(rw.values()) for rw in cf['ref']['h'].values()]))
+            bad = None
+            if not close(cf['fn']['f'], cf['ref']['f'], -40, sc):
+                bad = 'f'
+            for fld in ('g', 'h', 'b'):
+                if bad is None and first_diff_named_tol(cf['fn'][fld], cf['ref'][fld], sc) is not None:
+                    bad = fld
+            if bad is not None:
+                viol('C02/create_function/' + bad, 'the function built by create_function does not read its argument in the sorted order of the free '
+                     'parameter names (or attaches its outputs to other names)', cf['ref'][bad], cf['fn'][bad], extra={'x2': cf['x2']})
     return full
+
+
+def first_diff_named_tol(a, exp_, sc, path=()):
+    if isinstance(exp_, dict):
+        if not isinstance(a, dict) or list(a.keys()) != list(exp_.keys()):
+            return list(path) + ['keys']
+        for kk in exp_:
+            d = first_diff_named_tol(a[kk], exp_[kk], sc, path + (kk,))
+            if d is not None:
+                return d
+        return None
+    return None if close(a, exp_, -40, sc) else list(path)
 
 
 def scale_of(a):
@@ -464,7 +493,7 @@ def stream_deriv(ctx, only=None):
                     'evalX t / evalX (D b t) / evalX (D b\' (D b t)) (membership decided in Coq); exact-rational oracles for symmetry, BHHH, aggregation, '
                     'the 2x2x2 modes, refusals, named outputs, order-reversing renaming, BIOGEME scaled/unscaled; '
                     'non-trivial = decided entry of a tree with >= 4 nodes; distinct by (tree, row, entry)')
-    cases = only if only is not None else (corpus_cases() + make_cases(ctx, ctx.n(150, 1500)))
+    cases = only if only is not None else (corpus_cases() + make_cases(ctx, ctx.n(150, 4000)))
     import time
     t0 = time.time()
     res = ctx.impl_cases('c02_deriv.py', cases, chunk=ctx.n(10, 40), timeout=1500)
